@@ -50,7 +50,7 @@ def plan(pid, tier):
   kinds = F.ALL_KINDS
   if pid == "C31":
     kinds = F.RECORD_KINDS + ["AddColumn", "ModifyType", "Summary"]
-  INV_FIX = {"C09": (("views", "med"), ("summary", "small"), ("twoway", "small")),
+  INV_FIX = {"C09": (("views", "small"), ("summary", "small"), ("twoway", "small")),
              "C10": (("twoway", "med"), ("basic", "med"), ("views", "small"), ("summary", "small")),
              "C11": (("twoway", "full-nf"),),
              "C12": (("summary", "med"), ("basic", "small"))}
@@ -63,7 +63,7 @@ def plan(pid, tier):
       pairs = []
       for k in kinds:
         for k2 in kinds:
-          pairs.append((fx0, "seq", k + "+" + k2, 2, "micro-nf" if pid == "C11" else "micro", "micro-nf" if pid == "C11" else "micro", want, 0, 15.0, None))
+          pairs.append((fx0, "seq", k + "+" + k2, 2, "micro-nf" if pid == "C11" else "micro", "micro-nf" if pid == "C11" else "micro", want, 0, 10.0, None))
       return pairs + shards
     for fx, _ in INV_FIX[pid] + (("basic", "x"), ("types", "x")):
       for k in kinds:
@@ -73,14 +73,15 @@ def plan(pid, tier):
         shards.append((fx, "seq", k, 3, "micro", "micro", want, 2, 120.0, None))
     return shards
   if tier == "quick":
-    for fx, size in (("basic", "med"), ("trigger", "med"), ("types", "small"), ("summary", "small"),
+    for fx, size in (("basic", "med"), ("trigger", "small"), ("types", "small"), ("summary", "small"),
                      ("twoway", "small"), ("lookup", "small")):
       for k in kinds:
         shards.append((fx, "one", k, 1, size, size, want, 0, None, None))
     pairs = []
+    second = [k for k in kinds if k in F.RECORD_KINDS + ["RemoveColumn", "RenameColumn", "ModifyType", "ModifyFormula", "RemoveTable"]]
     for k in kinds:
-      for k2 in kinds:
-        pairs.append(("basic", "one", k + "+" + k2, 2, "micro", "micro", want, 0, 30.0, None))
+      for k2 in second:
+        pairs.append(("basic", "one", k + "+" + k2, 2, "micro", "micro", want, 0, 20.0, None))
     shards = pairs + shards
   else:
     fixtures = ["basic", "types", "twoway", "summary", "trigger", "views", "lookup", "cycles"]
